@@ -402,7 +402,8 @@ fn gen_cli(rng: &mut Rng) -> CliCase {
   let p = *rng.pick(&ps);
   let shape = *rng.pick(&["dir", "dir", "dir", "file", "stdin"]);
   let md5 = rng.chance(1, 2);
-  let names = ["a", "b", "c/d", "c/e", "f/g/h", "z", "m.bin", "c.x"];
+  // (namesakes in different directories, and a directory called like a file elsewhere: `c/d`, `f/d`, `d/a`, `a`)
+  let names = ["a", "b", "c/d", "c/e", "f/g/h", "z", "m.bin", "c.x", "f/d", "d/a", "f/g/a"];
   let mut files = Vec::new();
   if shape == "dir" {
     let n = rng.below(6) as usize;
@@ -683,7 +684,10 @@ fn cli_part(ctx: &Ctx, report: &mut Report) {
   // (a regular file) and in small ones (a pipe)
   for (pl, len) in [(1_572_864u64, 4_194_427usize), ((1 << 20) + 1, 3 << 20), (3 << 19, (3 << 20) + 7)] {
     for shape in ["file", "stdin"] {
-      cases.push(CliCase { p: pl, md5: shape == "file", shape: shape.into(), files: vec![("content".into(), (0..len).map(|i| (i / 4096) as u8).collect())], noise: vec![], links: false, progress: false, hardlink: false });
+      // (with and without the live progress display: what is drawn must not change what is hashed)
+      for progress in [false, true] {
+        cases.push(CliCase { p: pl, md5: shape == "file", shape: shape.into(), files: vec![("content".into(), (0..len).map(|i| (i / 4096) as u8).collect())], noise: vec![], links: false, progress, hardlink: false });
+      }
     }
   }
   report.rule.push_str("; CLI cases also: other options of create riding along, files reached through symbolic links with --follow-symlinks, a hard link, the live progress display (--terminal --color always), piece lengths of 32 MiB and of 1.5 MiB-like values with content of several pieces from a file and from a pipe");
